@@ -11,7 +11,8 @@
    imported sheet = its own URL), FontConfiguration.add_font_face (sources tried in order),
    get_image_from_uri (cache keyed by URL; failure -> None + error log), html.handle_img / handle_object /
    handle_embed and the CSS image call sites (alt text / fallback / nothing), svg image() (inner images go
-   through the same cache, nested SVG is drawn recursively), svg use() on an external URL (raw fetcher call,
+   through the same cache, nested SVG is drawn recursively), svg use() on an external URL (urls.fetch, kept in the
+   use_cache of the SVG object: fetched once per loaded SVG image, failure logged; formerly a raw fetcher call,
    result never usable), write_pdf_attachment / add_annotations (annotation files once per URL).
 
    Two semantics: [sem_*] is stateless (every get_image_from_uri call is a [Req]); [m_*] threads the image
@@ -46,13 +47,26 @@ Definition world := list (aurl * content).
 Inductive item :=
 | ILink (r : ref)
 | IStyle (items : list sitem)
-| IImage (k : imgkind) (id : Z) (r : option ref) (a : alt)    (* None: the element without its src/data *)
+| IImage (k : imgkind) (id : Z) (r : option ref) (a : alt) (o : nat)   (* None: the element without its src/data;
+                                                                       o: its image-orientation *)
 | IAttach (k : attkind) (id : Z) (r : ref)
 | INoFetch (r : ref).                                        (* icon, alternate/screen sheet, script, a href... *)
 
 Record doc := { d_base : option base; d_items : list item }.
 
 Inductive channel := ChSheet | ChFont | ChImage | ChUse | ChAttach.
+
+(* what the caches are keyed by: get_image_from_uri's cache by URL and image-orientation; the use_cache of a
+   loaded SVG image (the object cached under RkImg owner oo) by the URL of the external <use> *)
+Inductive rkey := RkImg (u : string) (o : nat) | RkUse (owner : string) (oo : nat) (u : string).
+Definition key_url (k : rkey) : string := match k with RkImg u _ => u | RkUse _ _ u => u end.
+Definition key_ch (k : rkey) : channel := match k with RkImg _ _ => ChImage | RkUse _ _ _ => ChUse end.
+Definition rkey_eqb (a b : rkey) : bool :=
+  match a, b with
+  | RkImg u o, RkImg u' o' => (u =? u') && Nat.eqb o o'
+  | RkUse w oo u, RkUse w' oo' u' => (w =? w') && Nat.eqb oo oo' && (u =? u')
+  | _, _ => false
+  end.
 Inductive level := LError | LWarning | LDebug.
 Inductive shown := ShImage | ShAlt | ShFallback | ShNothing.
 Inductive effect :=
@@ -64,7 +78,7 @@ Inductive effect :=
 
 Inductive ev :=
 | Fetch (ch : channel) (u : string)     (* url_fetcher(u) *)
-| Req (u : string)                      (* get_image_from_uri(url=u): stateless semantics only *)
+| Req (k : rkey)                        (* a cached lookup (image, external <use>): stateless semantics only *)
 | Log (lv : level) (u : string)
 | Eff (e : effect).
 
@@ -81,6 +95,12 @@ Definition img_ok (W : world) (fails : fails_t) (u : string) : bool :=
   match fails u with
   | Some _ => false
   | None => match lookup W u with Some CRaster => true | Some (CSvg _) => true | _ => false end
+  end.
+(* an external <use>: fetched, parsed as XML: any failure mode makes it unusable *)
+Definition use_ok (W : world) (fails : fails_t) (u : string) : bool :=
+  match fails u with
+  | Some _ => false
+  | None => match lookup W u with Some (CSvg _) => true | _ => false end
   end.
 Definition font_ok (W : world) (fails : fails_t) (u : string) : bool :=
   match fails u with
@@ -197,86 +217,97 @@ Section Sheets.
     | _ :: r => sheets_of b r
     end.
 
-  (* ---- images: the requests of the document, then of the CSS *)
-  Definition img_req := (imgkind * Z * option aurl * alt)%type.
+  (* ---- images: the requests of the document, then of the CSS.  A request carries the image-orientation of
+     the position (0 = the initial value): loaded images are cached per URL and orientation. *)
+  Definition img_req := (imgkind * Z * option aurl * alt * nat)%type.
 
   Fixpoint image_items (b : option base) (items : list item) : list img_req :=
     match items with
     | [] => []
-    | IImage k id rf a :: r =>
-        (k, id, match rf with None => None | Some rf => url_join b rf false end, a) :: image_items b r
+    | IImage k id rf a o :: r =>
+        (k, id, match rf with None => None | Some rf => url_join b rf false end, a, o) :: image_items b r
     | _ :: r => image_items b r
     end.
   Definition css_reqs (l : list cssimg) : list img_req :=
-    map (fun '(k, id, a) => (k, id, a, AltNone)) l.
+    map (fun '(k, id, a) => (k, id, a, AltNone, 0)) l.
 
   (* stateless: what one request contributes *)
   Definition sem_req (q : img_req) : list ev :=
-    let '(k, id, a, al) := q in
+    let '(k, id, a, al, o) := q in
     match a with
     | None => [Eff (EShown id (shown_absent k al))]
     | Some a => let u := fetched_string a in
-                [Req u; Eff (EShown id (if img_ok W fails u then ShImage else shown_absent k al))]
+                [Req (RkImg u o); Eff (EShown id (if img_ok W fails u then ShImage else shown_absent k al))]
     end.
 
-  (* draw the image object loaded from u (the caller has checked that it loaded) *)
-  Fixpoint sem_kids (rec : string -> list ev) (b : option base) (kids : list vref) : list ev :=
+  (* draw the image object loaded from u with orientation o (the caller has checked that it loaded);
+     an external <use> is looked up in the use_cache of that object *)
+  Fixpoint sem_kids (rec : string -> list ev) (owner : string) (oo : nat) (b : option base)
+           (kids : list vref) : list ev :=
     match kids with
     | [] => []
     | VImage rf :: r =>
         match url_join b rf true with
-        | None => sem_kids rec b r
+        | None => sem_kids rec owner oo b r
         | Some a => let u := fetched_string a in
-                    Req u :: (if img_ok W fails u then rec u else []) ++ sem_kids rec b r
+                    Req (RkImg u 0) :: (if img_ok W fails u then rec u else []) ++ sem_kids rec owner oo b r
         end
     | VUse rf :: r =>
         match url_join b rf true with
-        | None => sem_kids rec b r
-        | Some a => Fetch ChUse (fetched_string a) :: sem_kids rec b r
+        | None => sem_kids rec owner oo b r
+        | Some a => Req (RkUse owner oo (fetched_string a)) :: sem_kids rec owner oo b r
         end
     end.
 
-  Fixpoint sem_draw (w : world) (u : string) : list ev :=
+  Fixpoint sem_draw (w : world) (u : string) (o : nat) : list ev :=
     match w with
     | [] => []
     | (k, c) :: w' =>
         if fetched_string k =? u then
           match c with
           | CRaster => [Eff (EDrawn u)]
-          | CSvg kids => sem_kids (sem_draw w') (base_of k) kids
+          | CSvg kids => sem_kids (fun v => sem_draw w' v 0) u o (base_of k) kids
           | _ => []
           end
-        else sem_draw w' u
+        else sem_draw w' u o
     end.
 
   Definition sem_draw_req (q : img_req) : list ev :=
-    let '(_, _, a, _) := q in
+    let '(_, _, a, _, o) := q in
     match a with
     | None => []
-    | Some a => let u := fetched_string a in if img_ok W fails u then sem_draw W u else []
+    | Some a => let u := fetched_string a in if img_ok W fails u then sem_draw W u o else []
     end.
 
-  (* ---- the same with the cache of get_image_from_uri: url -> loaded? *)
-  Definition cache := list (string * bool).
-  Fixpoint cfind (c : cache) (u : string) : option bool :=
+  (* ---- the same with the caches of the code: the image cache of get_image_from_uri (key: URL and
+     orientation; the image options of the key are those of the render) and, inside each loaded SVG image, its
+     use_cache; both are "request key -> loaded?" *)
+  Definition cache := list (rkey * bool).
+  Fixpoint cfind (c : cache) (k : rkey) : option bool :=
     match c with
     | [] => None
-    | (k, v) :: c' => if k =? u then Some v else cfind c' u
+    | (k', v) :: c' => if rkey_eqb k' k then Some v else cfind c' k
     end.
 
-  Definition m_get (c : cache) (u : string) : cache * bool * list ev :=
-    match cfind c u with
+  Definition key_ok (k : rkey) : bool :=
+    match k with
+    | RkImg u _ => img_ok W fails u
+    | RkUse _ _ u => use_ok W fails u
+    end.
+
+  Definition m_get (c : cache) (k : rkey) : cache * bool * list ev :=
+    match cfind c k with
     | Some ok => (c, ok, [])
-    | None => let ok := img_ok W fails u in
-              ((u, ok) :: c, ok, Fetch ChImage u :: (if ok then [] else [Log LError u]))
+    | None => let ok := key_ok k in
+              ((k, ok) :: c, ok, Fetch (key_ch k) (key_url k) :: (if ok then [] else [Log LError (key_url k)]))
     end.
 
   Definition m_req (c : cache) (q : img_req) : cache * list ev :=
-    let '(k, id, a, al) := q in
+    let '(k, id, a, al, o) := q in
     match a with
     | None => (c, [Eff (EShown id (shown_absent k al))])
     | Some a => let u := fetched_string a in
-                let '(c1, ok, e) := m_get c u in
+                let '(c1, ok, e) := m_get c (RkImg u o) in
                 (c1, e ++ [Eff (EShown id (if ok then ShImage else shown_absent k al))])
     end.
 
@@ -287,47 +318,50 @@ Section Sheets.
                 let '(c2, e2) := m_reqs c1 r in (c2, e1 ++ e2)
     end.
 
-  Fixpoint m_kids (rec : cache -> string -> cache * list ev) (b : option base) (c : cache)
-           (kids : list vref) : cache * list ev :=
+  Fixpoint m_kids (rec : cache -> string -> cache * list ev) (owner : string) (oo : nat) (b : option base)
+           (c : cache) (kids : list vref) : cache * list ev :=
     match kids with
     | [] => (c, [])
     | VImage rf :: r =>
         match url_join b rf true with
-        | None => m_kids rec b c r
+        | None => m_kids rec owner oo b c r
         | Some a =>
             let u := fetched_string a in
-            let '(c1, ok, e1) := m_get c u in
+            let '(c1, ok, e1) := m_get c (RkImg u 0) in
             let '(c2, e2) := if ok then rec c1 u else (c1, []) in
-            let '(c3, e3) := m_kids rec b c2 r in
+            let '(c3, e3) := m_kids rec owner oo b c2 r in
             (c3, e1 ++ e2 ++ e3)
         end
     | VUse rf :: r =>
         match url_join b rf true with
-        | None => m_kids rec b c r
-        | Some a => let '(c1, e1) := m_kids rec b c r in (c1, Fetch ChUse (fetched_string a) :: e1)
+        | None => m_kids rec owner oo b c r
+        | Some a =>
+            let '(c1, _, e1) := m_get c (RkUse owner oo (fetched_string a)) in
+            let '(c2, e2) := m_kids rec owner oo b c1 r in
+            (c2, e1 ++ e2)
         end
     end.
 
-  Fixpoint m_draw (w : world) (c : cache) (u : string) : cache * list ev :=
+  Fixpoint m_draw (w : world) (c : cache) (u : string) (o : nat) : cache * list ev :=
     match w with
     | [] => (c, [])
     | (k, ct) :: w' =>
         if fetched_string k =? u then
           match ct with
           | CRaster => (c, [Eff (EDrawn u)])
-          | CSvg kids => m_kids (m_draw w') (base_of k) c kids
+          | CSvg kids => m_kids (fun c' v => m_draw w' c' v 0) u o (base_of k) c kids
           | _ => (c, [])
           end
-        else m_draw w' c u
+        else m_draw w' c u o
     end.
 
   Definition m_draw_req (c : cache) (q : img_req) : cache * list ev :=
-    let '(_, _, a, _) := q in
+    let '(_, _, a, _, o) := q in
     match a with
     | None => (c, [])
     | Some a => let u := fetched_string a in
-                match cfind c u with
-                | Some true => m_draw W c u
+                match cfind c (RkImg u o) with
+                | Some true => m_draw W c u o
                 | _ => (c, [])
                 end
     end.
@@ -378,12 +412,13 @@ Section Sheets.
 
   (* machine = cachefilter (keys of the initial cache) sem :  a Req of an unseen URL becomes a fetch (and an
      error record when it fails), a Req of a seen URL disappears *)
-  Fixpoint cachefilter (seen : list string) (l : list ev) : list ev :=
+  Fixpoint cachefilter (seen : list rkey) (l : list ev) : list ev :=
     match l with
     | [] => []
-    | Req u :: r =>
-        if existsb (String.eqb u) seen then cachefilter seen r
-        else Fetch ChImage u :: (if img_ok W fails u then [] else [Log LError u]) ++ cachefilter (u :: seen) r
+    | Req k :: r =>
+        if existsb (rkey_eqb k) seen then cachefilter seen r
+        else Fetch (key_ch k) (key_url k) :: (if key_ok k then [] else [Log LError (key_url k)])
+             ++ cachefilter (k :: seen) r
     | e :: r => e :: cachefilter seen r
     end.
 End Sheets.
@@ -399,8 +434,8 @@ Definition fetches_on (ch : channel) (l : list ev) : list string :=
                                     | _, _ => []
                                     end
                      | _ => [] end) l.
-Definition requests (l : list ev) : list string :=
-  flat_map (fun e => match e with Req u => [u] | _ => [] end) l.
+Definition requests (l : list ev) : list rkey :=
+  flat_map (fun e => match e with Req k => [k] | _ => [] end) l.
 Definition effects (l : list ev) : list effect :=
   flat_map (fun e => match e with Eff x => [x] | _ => [] end) l.
 Definition logged (lv : level) (l : list ev) : list string :=
@@ -411,10 +446,10 @@ Definition logged (lv : level) (l : list ev) : list string :=
                      | _ => [] end) l.
 
 (* first occurrences *)
-Fixpoint dedup (seen : list string) (l : list string) : list string :=
+Fixpoint dedup (seen : list rkey) (l : list rkey) : list rkey :=
   match l with
   | [] => []
-  | u :: r => if existsb (String.eqb u) seen then dedup seen r else u :: dedup (u :: seen) r
+  | k :: r => if existsb (rkey_eqb k) seen then dedup seen r else k :: dedup (k :: seen) r
   end.
 
 (* ---- the document without the references to u *)
@@ -432,7 +467,7 @@ Definition remove_sitem (b : option base) (u : string) (s : sitem) : list sitem 
 Definition remove_vref (b : option base) (u : string) (v : vref) : list vref :=
   match v with
   | VImage r => if ref_is b true u r then [] else [v]
-  | VUse r => [v]
+  | VUse r => if ref_is b true u r then [] else [v]
   end.
 Definition remove_content (b : option base) (u : string) (c : content) : content :=
   match c with
@@ -446,8 +481,8 @@ Definition remove_item (b : option base) (u : string) (i : item) : list item :=
   match i with
   | ILink r => if ref_is b false u r then [] else [i]
   | IStyle items => [IStyle (flat_map (remove_sitem b u) items)]
-  | IImage k id (Some r) a => if ref_is b false u r then [IImage k id None a] else [i]
-  | IImage _ _ None _ => [i]
+  | IImage k id (Some r) a o => if ref_is b false u r then [IImage k id None a o] else [i]
+  | IImage _ _ None _ _ => [i]
   | IAttach k id r => if ref_is b (match k with AAnchor => true | _ => false end) u r then [] else [i]
   | INoFetch _ => [i]
   end.
